@@ -170,7 +170,9 @@ pub fn gen(rng: &mut Rng, tier: Tier, out: &mut Vec<String>) {
         // every tenth lathe has MANY sectors (60..140) and few profile points: whatever the builder does every
         // so many columns (re-synchronising the incremental rotation, chunked emission) shows only there
         let many = j % 10 == 9;
-        let secs = if many { 60 + rng.below(81) as u32 } else { 3 + rng.below((smax - 2) as u64) as u32 };
+        // (every fiftieth lathe has 600..1500 sectors: an error that grows with the number of steps taken around
+        // the axis is invisible at a hundred steps)
+        let secs = if j % 50 == 49 { 600 + rng.below(901) as u32 } else if many { 60 + rng.below(81) as u32 } else { 3 + rng.below((smax - 2) as u64) as u32 };
         let n = if many { 2 + rng.below(2) } else { 2 + rng.below(gmax as u64) };
         let (a0, a1) = *rng.pick(ranges);
         let capped = rng.below(2);
